@@ -1,0 +1,229 @@
+//go:build verif
+
+// Contracts for the integrity check (C09): check mode is read-only; the `fixed` flag is only raised in fix mode.
+// The bucket content model is bktHas/bktVal/bktSub (trusted bbolt contracts): every bbolt write names them in its
+// modifies clause, so a write that is reachable with fix == false breaks the check-mode postcondition. Comments only.
+package boltz
+
+// dbSame(): no bucket content changed since the function was entered
+//@ define dbSame() = bktHas == old(bktHas) && bktVal == old(bktVal) && bktSub == old(bktSub)
+// ciFix: the fix flag of the running integrity check, for the error sink's precondition
+//@ ghost ciFix : Bool private
+
+// readers used by the checks (interface level: assumed; the implementations listed with props are proved)
+//@ func (Store).IterateValidIds
+//@   modifies *
+//@   ensures result != nil && dbSame()
+//@ func (Store).getLinks
+//@   pure
+//@ func (EntitySymbol).GetLinkedType
+//@   pure
+//@ func (EntitySymbol).GetPath
+//@   pure
+//@ func (RuntimeEntitySetSymbol).OpenCursor
+//@   modifies *
+//@   ensures result != nil && dbSame()
+//@ func (LinkCollection).GetFieldSymbol
+//@   pure
+//@ func (LinkCollection).GetLinkedSymbol
+//@   pure
+
+//@ func (*linkCollectionImpl).GetFieldSymbol
+//@   pure
+//@ func (*linkCollectionImpl).GetLinkedSymbol
+//@   pure
+//@ func (*setIndex).GetSymbol
+//@   pure
+//@   ensures result == index.symbol
+//@ func (*setIndex).Label
+//@   pure
+//@ func (Constraint).Label
+//@   pure
+//@ func (storeInternal).newIndexingContext
+//@   pure
+//@ func NewNotFoundError
+//@   pure
+//@   ensures result != nil
+// typed bucket navigation: Get* never writes; GetOrCreate* may
+//@ func (*TypedBucket).GetPath
+//@   props C09
+//@   nosafety
+//@   nilrecv
+//@   modifies *
+//@   ensures[read-only] dbSame()
+//@   invariant 1: dbSame()
+//@ func (*TypedBucket).GetOrCreateBucket
+//@   modifies *
+//@ func (*TypedBucket).GetOrCreatePath
+//@   modifies *
+//@ func GetOrCreatePath
+//@   modifies *
+//@ func ErrBucket
+//@   pure
+//@   ensures result != nil
+
+// ---- unique index ----
+//@ spec idxBucketPresent(index Int, tx Int) Bool
+//@ func (*uniqueIndex).getIndexBucket
+//@   props C09
+//@   nosafety
+//@   modifies *
+//@   censures[present-means-no-create] idxBucketPresent(index, tx) ==> dbSame()
+//@ func (*uniqueIndex).Read
+//@   props C09
+//@   nosafety
+//@   modifies *
+//@   ensures[read-only] idxBucketPresent(index, tx) ==> dbSame()
+//@ funcparam (*uniqueIndex).CheckIntegrity.errorSink(err, fixed)
+//@   requires[fixed-only-in-fix-mode] fixed ==> ciFix
+//@   modifies *
+//@   ensures dbSame()
+//@ func (*uniqueIndex).CheckIntegrity
+//@   props C09
+//@   nosafety
+//@   waive pre#Next the cursor protocol of the id and link cursors is C14's concern, not part of this claim
+//@   waive pre#Current the cursor protocol of the id and link cursors is C14's concern, not part of this claim
+//@   assume ciFix == fix
+//@   assume[index-bucket-initialised] idxBucketPresent(index, ctxTx[ctx])
+//@   modifies *
+//@   ensures[check-mode-is-read-only] !fix ==> dbSame()
+//@   invariant 1: ciFix == fix && (!fix ==> dbSame())
+//@   invariant 2: ciFix == fix && (!fix ==> dbSame())
+
+// ---- set index ----
+//@ func (*setIndex).getIndexBucket
+//@   modifies *
+//@ funcparam (*setIndex).CheckIntegrity.errorSink(err, fixed)
+//@   requires[fixed-only-in-fix-mode] fixed ==> ciFix
+//@   modifies *
+//@   ensures dbSame()
+//@ func (*setIndex).CheckIntegrity
+//@   props C09
+//@   nosafety
+//@   waive pre#Next the cursor protocol of the id and link cursors is C14's concern, not part of this claim
+//@   waive pre#Current the cursor protocol of the id and link cursors is C14's concern, not part of this claim
+//@   assume ciFix == fix
+//@   modifies *
+//@   ensures[check-mode-is-read-only] !fix ==> dbSame()
+//@   invariant 1: ciFix == fix && (!fix ==> dbSame() && len(toDelete) == 0)
+//@   invariant 2: ciFix == fix && (!fix ==> dbSame() && len(toDelete) == 0)
+//@   invariant 3: ciFix == fix && (!fix ==> dbSame() && len(toDelete) == 0)
+//@   invariant 4: ciFix == fix && (!fix ==> dbSame() && len(toDelete) == 0)
+//@   invariant 5: ciFix == fix && (!fix ==> dbSame())
+//@   invariant 6: ciFix == fix && (!fix ==> dbSame())
+
+// ---- fk index / fk constraint ----
+//@ func (*fkIndex).getIndexBucket
+//@   modifies *
+//@ func (*fkIndex).getIndexBucketReadOnly
+//@   props C09
+//@   nosafety
+//@   modifies *
+//@   ensures[read-only] dbSame()
+//@ funcparam (*fkIndex).CheckIntegrity.errorSink(err, fixed)
+//@   requires[fixed-only-in-fix-mode] fixed ==> ciFix
+//@   modifies *
+//@   ensures dbSame()
+//@ func (*fkIndex).CheckIntegrity
+//@   props C09
+//@   nosafety
+//@   waive pre#Next the cursor protocol of the id and link cursors is C14's concern, not part of this claim
+//@   waive pre#Current the cursor protocol of the id and link cursors is C14's concern, not part of this claim
+//@   assume ciFix == fix
+//@   modifies *
+//@   ensures[check-mode-is-read-only] !fix ==> dbSame()
+//@   invariant 1: ciFix == fix && (!fix ==> dbSame())
+//@   invariant 2: ciFix == fix && (!fix ==> dbSame())
+//@   invariant 3: ciFix == fix && (!fix ==> dbSame())
+//@ funcparam (*fkConstraint).CheckIntegrity.errorSink(err, fixed)
+//@   requires[fixed-only-in-fix-mode] fixed ==> ciFix
+//@   modifies *
+//@   ensures dbSame()
+//@ func (*fkConstraint).CheckIntegrity
+//@   props C09
+//@   nosafety
+//@   waive pre#Next the cursor protocol of the id and link cursors is C14's concern, not part of this claim
+//@   waive pre#Current the cursor protocol of the id and link cursors is C14's concern, not part of this claim
+//@   assume ciFix == fix
+//@   modifies *
+//@   ensures[check-mode-is-read-only] !fix ==> dbSame()
+//@   invariant 1: ciFix == fix && (!fix ==> dbSame())
+
+// ---- link collections ----
+//@ func (*linkCollectionImpl).getFieldBucket
+//@   modifies *
+//@ func (*linkCollectionImpl).IterateLinks
+//@   props C09
+//@   nosafety
+//@   waive pre#IterateStringList a bucket reached through GetPath without an error wraps a bbolt bucket (cursor preconditions are C14's concern)
+//@   modifies *
+//@   ensures[read-only] result != nil && dbSame()
+//@ func (*LinkedSetSymbol).IsLinked
+//@   props C09
+//@   nosafety
+//@   modifies *
+//@   ensures[read-only] dbSame()
+//@ funcparam (*linkCollectionImpl).CheckIntegrity.errorSink(err, fixed)
+//@   requires[fixed-only-in-fix-mode] fixed ==> ciFix
+//@   modifies *
+//@   ensures dbSame()
+//@ func (*linkCollectionImpl).CheckIntegrity
+//@   props C09
+//@   nosafety
+//@   waive pre#Next the cursor protocol of the id and link cursors is C14's concern, not part of this claim
+//@   waive pre#Current the cursor protocol of the id and link cursors is C14's concern, not part of this claim
+//@   assume ciFix == fix
+//@   modifies *
+//@   ensures[check-mode-is-read-only] !fix ==> dbSame()
+//@   invariant 1: ciFix == fix && (!fix ==> dbSame())
+//@   invariant 2: ciFix == fix && (!fix ==> dbSame())
+//@   invariant 3: ciFix == fix && (!fix ==> dbSame())
+
+// ---- store-level fan-out: every constraint and link collection is checked, with the caller's fix flag and sink ----
+//@ func (Checkable).CheckIntegrity
+//@   modifies *
+//@   ensures[check-mode-is-read-only] !fix ==> dbSame()
+//@ func (*BaseStore).CheckIntegrity
+//@   props C09
+//@   nosafety
+//@   waive pre#Next the cursor protocol of the id and link cursors is C14's concern, not part of this claim
+//@   waive pre#Current the cursor protocol of the id and link cursors is C14's concern, not part of this claim
+//@   modifies *
+//@   ensures[check-mode-is-read-only] !fix ==> dbSame()
+//@   invariant 1: !fix ==> dbSame()
+//@   invariant 2: !fix ==> dbSame()
+
+// ---- the store's own readers are proved read-only (they are what the interface-level contracts above assume) ----
+//@ func (Store).GetEntitiesBucket
+//@   modifies *
+//@   ensures dbSame()
+//@ func (*BaseStore).GetEntitiesBucket
+//@   props C09
+//@   nosafety
+//@   modifies *
+//@   ensures[read-only] dbSame()
+//@ func (*BaseStore).GetEntityBucket
+//@   props C09
+//@   nosafety
+//@   modifies *
+//@   ensures[read-only] dbSame()
+//@ func (*BaseStore).IsEntityPresent
+//@   props C09
+//@   nosafety
+//@   modifies *
+//@   ensures[read-only] dbSame()
+// assumed: positioning a filtered id cursor evaluates the filter, which only reads
+//@ func newFilteredCursor
+//@   modifies *
+//@   ensures result != nil && dbSame()
+//@ func (*BaseStore).IterateIds
+//@   props C09
+//@   nosafety
+//@   waive pre#OpenSeekableCursor the entities bucket returned by Path wraps a bbolt bucket (cursor preconditions are C14's concern)
+//@   modifies *
+//@   ensures[read-only] dbSame()
+//@ func (*BaseStore).IterateValidIds
+//@   props C09
+//@   nosafety
+//@   modifies *
+//@   ensures[read-only] dbSame()
